@@ -72,19 +72,10 @@ top:
 	if meth.Name != aux.docs.Name {
 		return args[0]
 	}
-	var key []byte
-	for i, da := range meth.Doc.Args {
-		if da.Name[0] == '&' {
-			break
-		}
-		if 0 < i {
-			key = append(key, '|')
-		}
-		key = append(key, da.Type...)
-	}
+	key := docMethKey(meth.Doc)
 	aux.moo.Lock()
 	defer aux.moo.Unlock()
-	if gmeth := aux.methods[string(key)]; gmeth != nil && 0 < len(gmeth.Combinations) {
+	if gmeth := aux.methods[key]; gmeth != nil && 0 < len(gmeth.Combinations) {
 		comb := meth.Combinations[0]
 		gcomb := gmeth.Combinations[0]
 		// Just one of the daemon callers of meth should be set.
@@ -105,7 +96,7 @@ top:
 		if gcomb.Primary == nil && gcomb.Before == nil && gcomb.After == nil && gcomb.Wrap == nil {
 			gmeth.Combinations = gmeth.Combinations[:len(gmeth.Combinations)-1]
 			if len(gmeth.Combinations) == 0 {
-				delete(aux.methods, string(key))
+				delete(aux.methods, key)
 			}
 		}
 		if 0 < len(aux.cache) { // clear cache
